@@ -287,6 +287,11 @@ impl ConfigOptions {
                 config.chunk_min_size(),
                 config.chunk_max_size(),
             )?;
+        } else if config.chunk_size() == 0 {
+            return Err(RusticError::new(
+                ErrorKind::Unsupported,
+                "Chunk size must not be 0 for the fixed size chunker.",
+            ));
         }
 
         if let Some(compression) = self.set_compression {
